@@ -519,6 +519,13 @@ def desugar_adaptors(facts, body, blocks, locals_, depth, stack, t1=True):
             if l is None:
                 break
             ds = _defs_of(blocks, l)
+            if len(ds) == 1 and ds[0][1] == 'stmt' and ds[0][2]['rv'].get('k') == 'ref' and not ds[0][2]['rv']['place']['proj'] and stages == []:
+                # `(&mut chain).any(..)`: consumers that take `&mut self` see the chain through a reborrow
+                inner = ds[0][2]['rv']['place']['local']
+                ds2 = _defs_of(blocks, inner)
+                if len(ds2) == 1 and ds2[0][1] == 'call' and (ds2[0][2].get('callee') or {}).get('name') in STAGES | {'copied', 'cloned'}:
+                    src = {'k': 'move', 'place': _pl(inner)}
+                    continue
             if len(ds) != 1 or ds[0][1] != 'call':
                 break
             ct = ds[0][2]
